@@ -12,6 +12,9 @@ implies global optimality" as mathematics; it is now a theorem over Mathlib's re
   threshold of its own `x + u` entries (`fixed_point_class_kkt`, C02) — so an ADMM fixed point IS the
   constrained optimum.
 * `mle_is_inverse_covariance`: with no penalty the optimum is `S⁻¹`.
+* `blockToeplitz_iff_class_constant`, `ticc_admm_fixed_point_optimal`: for TICC's own classes (block offset,
+  in-block row, in-block column, mirror positions folded) "constant on the classes" IS "block-Toeplitz with
+  symmetric leading block", so the fixed point is the optimum over exactly the set the property names.
 * `kkt_approx_global_min`: a certificate that holds up to residuals `r_c` bounds the suboptimality against
   every competitor by `Σ_c r_c |y_c − x_c|` — "a minimiser to within the stopping tolerance" made exact.
 
@@ -294,5 +297,99 @@ theorem kkt_approx_global_min (S Lam X : Matrix n n ℝ) (cls : n → n → κ) 
   have hS : (S * (Y - X)).trace = (S * Y).trace - (S * X).trace := by
     rw [Matrix.mul_sub, trace_sub]
   linarith
+
+/-! ### TICC's classes: block-Toeplitz = constant on the classes -/
+
+/-- index of a stacked window entry: (block `0..W-1`, sensor `0..N-1`) — the flat index is
+`block * N + sensor`. -/
+abbrev Idx (W N : ℕ) := Fin W × Fin N
+
+/-- TICC's Toeplitz class of a matrix position, mirror positions folded together: block offset,
+in-block row, in-block column (taken from the upper-triangle representative; inside a diagonal
+block the unordered pair of sensors). -/
+def ticcCls (W N : ℕ) (p q : Idx W N) : Fin W × Fin N × Fin N :=
+  if p.1 < q.1 then (⟨q.1 - p.1, by omega⟩, p.2, q.2)
+  else if q.1 < p.1 then (⟨p.1 - q.1, by omega⟩, q.2, p.2)
+  else (⟨0, p.1.pos⟩, min p.2 q.2, max p.2 q.2)
+
+theorem ticcCls_symm (W N : ℕ) (p q : Idx W N) : ticcCls W N p q = ticcCls W N q p := by
+  unfold ticcCls
+  by_cases h1 : p.1 < q.1
+  · have h2 : ¬ q.1 < p.1 := by omega
+    simp [h1, h2]
+  · by_cases h2 : q.1 < p.1
+    · simp [h1, h2]
+    · simp only [h1, h2, if_false]
+      rw [min_comm, max_comm]
+
+/-- block-Toeplitz with symmetric leading block (C02's words): symmetric, and an entry depends only on
+the block offset and the two in-block coordinates. -/
+def IsBlockToeplitz (W N : ℕ) (M : Matrix (Idx W N) (Idx W N) ℝ) : Prop :=
+  (∀ p q, M p q = M q p) ∧
+  ∀ (bi bj bi' bj' : Fin W) (r c : Fin N), bi ≤ bj → bi' ≤ bj' →
+    (bj : ℕ) - bi = bj' - bi' → M (bi, r) (bj, c) = M (bi', r) (bj', c)
+
+/-- a matrix is block-Toeplitz (with symmetric leading block) exactly when it is constant on TICC's
+classes. -/
+theorem blockToeplitz_iff_class_constant (W N : ℕ) (M : Matrix (Idx W N) (Idx W N) ℝ) :
+    IsBlockToeplitz W N M ↔ ∃ x : Fin W × Fin N × Fin N → ℝ, ∀ p q, M p q = x (ticcCls W N p q) := by
+  constructor
+  · rintro ⟨hs, ht⟩
+    refine ⟨fun k => if h : 0 < W then M (⟨0, h⟩, k.2.1) (k.1, k.2.2) else 0, ?_⟩
+    rintro ⟨bi, r⟩ ⟨bj, c⟩
+    have hW : 0 < W := bi.pos
+    simp only [ticcCls, dif_pos hW]
+    by_cases h1 : bi < bj
+    · simp only [h1, if_true]
+      exact (ht ⟨0, hW⟩ ⟨bj - bi, by omega⟩ bi bj r c (Fin.mk_le_mk.mpr (Nat.zero_le _)) h1.le (by simp)).symm
+    · by_cases h2 : bj < bi
+      · simp only [h1, h2, if_false, if_true]
+        rw [hs]
+        exact (ht ⟨0, hW⟩ ⟨bi - bj, by omega⟩ bj bi c r (Fin.mk_le_mk.mpr (Nat.zero_le _)) h2.le (by simp)).symm
+      · have he : bi = bj := by
+          apply Fin.ext; simp only [Fin.lt_def] at h1 h2; omega
+        subst he
+        simp only [h1, if_false]
+        rcases le_total r c with hrc | hrc
+        · rw [min_eq_left hrc, max_eq_right hrc]
+          exact (ht ⟨0, hW⟩ ⟨0, hW⟩ bi bi r c le_rfl le_rfl (by simp)).symm
+        · rw [min_eq_right hrc, max_eq_left hrc, hs]
+          exact (ht ⟨0, hW⟩ ⟨0, hW⟩ bi bi c r le_rfl le_rfl (by simp)).symm
+  · rintro ⟨x, hx⟩
+    refine ⟨fun p q => by rw [hx, hx, ticcCls_symm], ?_⟩
+    intro bi bj bi' bj' r c h1 h2 hd
+    rw [hx, hx]
+    congr 1
+    unfold ticcCls
+    by_cases e1 : bi < bj
+    · have e2 : bi' < bj' := by
+        simp only [Fin.lt_def, Fin.le_def] at *; omega
+      simp only [e1, e2, if_true]
+      congr 1
+      apply Fin.ext; simpa using hd
+    · have e1' : bi = bj := le_antisymm h1 (not_lt.mp e1)
+      have e2' : bi' = bj' := by
+        apply Fin.ext
+        have : (bj : ℕ) - bi = 0 := by rw [e1']; simp
+        simp only [Fin.le_def] at h2; omega
+      subst e1' e2'
+      simp
+
+/-- C02 IN ITS OWN WORDS: an ADMM fixed point whose matrix is block-Toeplitz (class values `x`) minimises
+`−log det Θ + tr(SΘ) + ‖Λ∘Θ‖₁` over ALL symmetric positive definite block-Toeplitz matrices
+(`W` distinct `N×N` blocks, symmetric leading block). -/
+theorem ticc_admm_fixed_point_optimal (W N : ℕ) (S Lam X U : Matrix (Idx W N) (Idx W N) ℝ) (rho : ℝ)
+    (hrho : 0 < rho) (x : Fin W × Fin N × Fin N → ℝ)
+    (hX : X.PosDef) (hXc : ∀ p q, X p q = x (ticcCls W N p q)) (hLam : ∀ p q, 0 ≤ Lam p q)
+    (hstat : X⁻¹ - S = rho • U)
+    (hfix : ∀ c, (∃ p : Idx W N × Idx W N, ticcCls W N p.1 p.2 = c) →
+      Numeric.softThreshold (rho * ∑ p : Idx W N × Idx W N with ticcCls W N p.1 p.2 = c, (x c + U p.1 p.2))
+        (∑ p : Idx W N × Idx W N with ticcCls W N p.1 p.2 = c, Lam p.1 p.2)
+        (rho * ((Finset.univ.filter (fun p : Idx W N × Idx W N => ticcCls W N p.1 p.2 = c)).card : ℝ)) = x c)
+    (Y : Matrix (Idx W N) (Idx W N) ℝ) (hY : Y.PosDef) (hYt : IsBlockToeplitz W N Y) :
+    IsBlockToeplitz W N X ∧ glassoObj S Lam X ≤ glassoObj S Lam Y := by
+  obtain ⟨y, hy⟩ := (blockToeplitz_iff_class_constant W N Y).mp hYt
+  exact ⟨(blockToeplitz_iff_class_constant W N X).mpr ⟨x, hXc⟩,
+    admm_fixed_point_global_min S Lam X U rho hrho (ticcCls W N) x hX hXc hLam hstat hfix Y y hY hy⟩
 
 end FastTicc.C02opt
